@@ -6,17 +6,28 @@ PROP = dict(
                 'from separately drawn sign / exponent-field / mantissa-field '
                 'classes (zero, subnormal, binade edges, infinities, NaN '
                 'payloads; mantissas that carry on rounding to 4/10/23 bits, '
-                'exact ties, all ones), array shapes with exponent spread 0, '
+                'exact ties, all ones; doubles that are exactly representable '
+                'in a narrower format: k-bit significand for k = 3, 4, 5, 8 '
+                '(bfloat16), 9, 10, 11 (binary16), 12, 21..25 (24 = binary32), '
+                '32, 52, with and without the last kept bit set), array '
+                'shapes with exponent spread 0, '
                 '<= 255, exactly 255/256/257, up to 2045 binades and '
-                'interleaved specials, in every precision x exponent-mode pair '
+                'interleaved specials, each of them also as "every normal '
+                'element fits k bits" and "all but one element fits k bits" '
+                '(up to 2000 elements, exponents optionally folded into the '
+                'binary16 / binary32 range), in every precision x '
+                'exponent-mode pair '
                 'and through varintFloatEncodeAuto with requested errors at, '
-                'next to and between the published bounds; exact oracle (bit '
+                'next to and between the published bounds and on both sides of '
+                '2^-k and 2^-(k-1) of the array at hand; exact oracle (bit '
                 'comparison, or |d-x| <= bound*|x| evaluated without rounding '
                 'in x87 extended precision), in the sanitised and the '
                 'pinned-release build; plus a deterministic sweep of every '
                 '(sign, exponent class, mantissa class) element alone, all '
                 'together and in pairs straddling the 8-bit exponent-delta '
-                'limit'),
+                'limit, and of 8-element narrow-format arrays for every k of '
+                'the table in every precision x mode and through EncodeAuto '
+                'with requests around 2^-k'),
     level_note=('trusts the harness decoder of the case bytes, x87 long double '
                 '(64-bit significand: differences of nearby doubles and '
                 'power-of-two scalings are exact; the product for an arbitrary '
@@ -32,7 +43,15 @@ PROP = dict(
           'spread >= 256, specials interleaved, free mix; 1..64 elements, ~9% '
           'of them 65..2000, 8000 in the thorough tier) expanded from a seed '
           'with up to 8 explicit overrides; deliberate carry patterns are '
-          'enabled in 1/4 of the arrays; an EncodeAuto result is held first '
+          'enabled in 1/4 of the arrays; 1/8 of the explicit elements (and of '
+          'the elements of half of the bulk arrays) are cut to a k-bit '
+          'significand, in half of the draws with the lowest kept bit forced '
+          'to 1; 1/8 of the arrays are post-processed so that all (or all but '
+          'one) of their normal elements fit k bits (lowest kept bit set in '
+          'half / all / one / as drawn, exponent window kept / binary16 / '
+          'binary32 / around one); 1/32 + 3/16 of the EncodeAuto requests are '
+          'placed relative to 2^-k of the decoded array; '
+          'an EncodeAuto result is held first '
           'to the guarantee of the precision it reports, then to the '
           'requested error; '
           'non-trivial = at least one normal value and (lossy precision or '
@@ -56,7 +75,25 @@ PROP = dict(
          'specials.mixed', 'specials.only', 'special.nan', 'special.inf',
          'special.zero', 'special.subnormal', 'len.1', 'len.65+',
          'shape.explicit', 'shape.binade', 'shape.spread<=255',
-         'shape.spread>=256', 'shape.specials', 'shape.mix']),
+         'shape.spread>=256', 'shape.specials', 'shape.mix'] +
+        # doubles exactly representable in a narrower format (k-bit significand)
+        ['%s.k%d' % (c, k)
+         for c in ('elem.narrow', 'narrow.all', 'narrow.allbut1')
+         for k in (3, 4, 9, 10, 11, 21, 22, 23, 24, 52)] +
+        ['narrow.all.%s' % x
+         for x in ('FULL', 'HIGH', 'MEDIUM', 'LOW', 'auto', 'INDEPENDENT',
+                   'COMMON', 'DELTA', 'n2-8', 'n9-64', 'n65+')] +
+        ['narrow.allbut1.%s' % x
+         for x in ('FULL', 'HIGH', 'MEDIUM', 'LOW', 'auto', 'n3-8', 'n9-64',
+                   'n65+')] +
+        ['elem.narrow.in_bulk', 'shape.narrow.all', 'shape.narrow.allbut1',
+         'shape.narrow.explicit', 'shape.narrow.binade',
+         'shape.narrow.spread<=255', 'shape.narrow.specials',
+         'shape.narrow.mix', 'shape.narrow.win.half',
+         'shape.narrow.win.float', 'auto.req.array_relative',
+         'auto.narrow.req_lt_2^-k', 'auto.narrow.req_in_2^-k..2^-(k-1)',
+         'auto.narrow.req_ge_2^-(k-1)', 'auto.narrow.multi.req_lt_2^-k',
+         'auto.narrow.multi.req_ge_2^-k']),
     assumptions=COMMON_ASSUME + [
         'count >= 1; the output buffer has varintFloatMaxEncodedSize(count, '
         'precision) + 32 bytes (FULL precision for EncodeAuto); the size '
